@@ -14,7 +14,9 @@ Monitor (independent of the Lean model; reference = the submissions the harness 
     requested since the last reload;  * at most one accepted update per reload cycle;
   * the poller of the strongest priority fires at the first poll at which its condition holds;
   * after every history, letting work drain makes a pending submission take effect;
-  * the recorded priority is the strongest requested;  * a refused submission changes nothing.
+  * the recorded priority is the strongest requested;  * a refused submission changes nothing;
+  * the same under the schedule in which a new poller thread runs its first loop test before deferToThread
+    returns, and with request.finish() raising RuntimeError / OSError inside step_3 (client hung up).
 """
 import itertools
 import json
@@ -194,12 +196,32 @@ class SubmitWorld(World):
                                 f'{ {k: (before[k], v) for k, v in self.snapshot().items() if before[k] != v} }'))
             if sub is not None:
                 sub.prio = e.split(':')[1]
-        elif e == 'sd':
+        elif e in ('sd', 'sdR', 'sdO'):
             sub = self.proc
+            if sub is not None and e != 'sd':
+                # the client dropped the connection after the submission was accepted: request.finish() raises
+                sub.request.finish_exc = RuntimeError('Request.finish called on a request after its connection '
+                                                      'was lost') if e == 'sdR' else OSError('broken pipe')
             self.ev_submit_end(True)
+            if self.eager:
+                # eager schedule: a poller started by this step_3 already ran its first loop test; if it ended,
+                # its done() callback reaches the reactor now, with crew / doing / queue unchanged
+                for rec in [r for r in self.pending if getattr(r, 'finished', False)]:
+                    self.who = rec.kind
+                    marks = (self._mark_calls, self._mark_moves, self._mark_resets)
+                    self._begin()
+                    self.deliver_finished()
+                    self._end('complete')
+                    self._mark_calls, self._mark_moves, self._mark_resets = marks
+                    break
             if sub is not None:
                 calls = [c for c in self.calls[self._mark_calls:] if c['depth'] == 0]
                 if calls and calls[0]['trigger'] == 'running_trigger' and calls[0]['raised'] is None:
+                    if sub.cleared == 0:
+                        self.cv.append(('C12:submit-busy-stuck',
+                                        f'step_3 of the accepted submission on the {sub.endpoint} endpoint brought the '
+                                        'life-cycle back to running but never released the endpoint (clear() not '
+                                        'called): every later submission is turned away'))
                     p = sub.prio if sub.prio in ORDER else 'TODO'
                     self.ref.append(p)
                     self.strongest_at_update = self.strongest()
@@ -288,7 +310,7 @@ def model_ev(e, w_prio):
         return 'boot'
     if e.startswith('sb'):
         return 'sb'
-    if e == 'sd':
+    if e in ('sd', 'sdR', 'sdO'):
         return ['sd', w_prio]
     if e == 'sf':
         return 'sf'
@@ -321,18 +343,22 @@ def report(w, res, replay):
         res.hit('C12:life-cycle:' + sig, what, replay)
 
 
-def run_history(w, archive0, env0, events, res):
+def run_history(w, archive0, env0, events, res, eager=False):
     w.fresh(archive0, env0)
+    w.eager = bool(eager)
     obs, mevs = [], []
     for e in events:
         prio = 'TODO'
-        if e == 'sd' and w.proc is not None:
+        if e in ('sd', 'sdR', 'sdO') and w.proc is not None:
             p = getattr(w.proc, 'prio', 'TODO')
             prio = p if p in ORDER else 'TODO'
         mevs.append(model_ev(e, prio))
         obs.append(w.ev(e))
     replay = {'kind': 'hist', 'archive0': bool(archive0), 'env0': [bool(x) for x in env0], 'events': list(events)}
+    if eager:
+        replay['eager'] = True
     w.finish()
+    w.eager = False
     report(w, res, replay)
     return obs, mevs
 
@@ -386,7 +412,26 @@ CORPUS = [
     (True, '001', BOOT + ['sb:TODO', 'sd', 'da', 'pT', 'c0T', 'env:000', 'pT']),
 ]
 
-EVENTS = (['sb:TODO', 'sb:DOING', 'sb:CREW', 'sb:NOW', 'sbo:TODO', 'sbo:CREW', 'sb:BOGUS', 'sd', 'sd', 'sd', 'sf', 'da', 'fa',
+# schedule "the new poller thread runs its first loop test before deferToThread returns" (a real thread that wins
+# the race against the statements that follow in wait_for_*): submissions made while their condition does NOT hold
+# must not reload.  Monitor only (the model treats poll and callback as one step after wait_for_* returned).
+EAGER_CORPUS = [
+    (False, '010', BOOT + ['sb:DOING', 'sd', 'pD', 'env:000', 'pD']),
+    (False, '100', BOOT + ['sb:CREW', 'sd', 'pC', 'env:000', 'pC']),
+    (False, '001', BOOT + ['sb:TODO', 'sd', 'pT', 'env:000', 'pT']),
+    (False, '111', BOOT + ['sb:TODO', 'sd', 'sbo:DOING', 'sd', 'sb:CREW', 'sd', 'pT', 'pD', 'pC', 'env:000', 'pC']),
+    (False, '011', BOOT + ['sb:TODO', 'sd', 'sb:NOW', 'sd', 'c0F', 'c0F', 'c0F', 'sb:DOING', 'sd', 'env:001', 'pD']),
+    (False, '000', BOOT + ['sb:DOING', 'sd', 'c0F', 'c0F', 'c0F', 'env:110', 'sb:CREW', 'sd', 'pC']),
+]
+# the client hangs up after the submission was accepted: request.finish() raises inside step_3 (RuntimeError is
+# what Twisted raises once the connection is lost; OSError; nothing) on both endpoints
+FINISH_CORPUS = [
+    (False, '001', BOOT + ['sb:TODO', 'sdR', 'env:000', 'pT']),
+    (False, '001', BOOT + ['sbo:TODO', 'sdR', 'env:000', 'pT']),
+    (False, '010', BOOT + ['sb:DOING', 'sdO', 'sbo:CREW', 'sdO', 'sb:NOW', 'sdR', 'c0F', 'c0F', 'c0F', 'sbo:TODO', 'sdR', 'pT']),
+]
+
+EVENTS = (['sb:TODO', 'sb:DOING', 'sb:CREW', 'sb:NOW', 'sbo:TODO', 'sbo:CREW', 'sb:BOGUS', 'sd', 'sd', 'sd', 'sdR', 'sdO', 'sf', 'da', 'fa',
            'rnF', 'rnT', 'c0F', 'c0F', 'c0F', 'c0T', 'pC', 'pD', 'pT', 'pC', 'pD', 'pT']
           + ['env:' + ''.join(b) for b in itertools.product('01', repeat=3)])
 
@@ -399,7 +444,7 @@ def gen_random(r):
         e = r.choice(EVENTS)
         ev.append(e)
         if e.startswith('sb') and r.random() < 0.7:
-            ev.append('sd')
+            ev.append(r.choice(['sd', 'sd', 'sd', 'sdR', 'sdO']))
             i += 1
         i += 1
     return r.random() < 0.25, ''.join(r.choice('01') for _ in range(3)), ev
@@ -457,11 +502,22 @@ def run(ctx, res):
             c = json.load(open(os.path.join(cdir, f)))
             obs, mevs = run_history(w, c['archive0'], tuple(c['env0']), c['events'], res)
             record(res, lines, pending, c['archive0'], tuple(c['env0']), c['events'], obs, mevs, 'corpus')
+    for archive0, env0, events in FINISH_CORPUS:
+        env = tuple(c == '1' for c in env0)
+        obs, mevs = run_history(w, archive0, env, events, res)
+        record(res, lines, pending, archive0, env, events, obs, mevs, 'corpus')
+    for archive0, env0, events in EAGER_CORPUS:
+        run_history(w, archive0, tuple(c == '1' for c in env0), events, res, eager=True)
+        res.count('hist:eager-corpus')
     for _ in range(15000 if thorough else 1200):
         archive0, env0, events = gen_random(r)
         env = tuple(c == '1' for c in env0)
         obs, mevs = run_history(w, archive0, env, events, res)
         record(res, lines, pending, archive0, env, events, obs, mevs, 'random')
+    for _ in range(3000 if thorough else 300):
+        archive0, env0, events = gen_random(r)
+        run_history(w, archive0, tuple(c == '1' for c in env0), events, res, eager=True)
+        res.count('hist:eager-random')
     n = enumerate_short(w, res, lines, pending, 4 if thorough else 2)
     res.count('enumerated', n)
     res.exhaustive = thorough
@@ -506,4 +562,4 @@ def _replay(rep, res):
             res.hit('C12:priority-lattice', f'Priority.max{tuple(inp["args"])} = {impl}, the strongest is {ref}', inp)
         return
     w = SubmitWorld()
-    run_history(w, inp['archive0'], tuple(inp['env0']), inp['events'], res)
+    run_history(w, inp['archive0'], tuple(inp['env0']), inp['events'], res, eager=inp.get('eager', False))
